@@ -422,8 +422,14 @@ def replay(hosts: dict, beh: dict, check: set[str]) -> tuple[list, int]:
         if {'reparse', 'readback'} & check:
             try:
                 f2 = tree.parse(text)
-                if 'reparse' in check and tree.content(f2) != tree.content(f):
+                differs = tree.content(f2) != tree.content(f)
+                if 'reparse' in check and differs:
                     add('reparse', ev, f'content differs after re-parse of {text!r}')
+                elif differs and doc == 'compact' and op in ('clear', 'vclear'):
+                    # the known compact-source defect (a removal merged two neighbours) struck on a step this property
+                    # does not judge: the rest of this history runs on a document that no longer says what the tree
+                    # says, so it is not continued (it is judged, and reported, where the removal itself is in scope)
+                    break
                 if 'readback' in check and op in ('vset', 'vsetedge', 'vsetsame', 'vclear'):
                     m2 = at_path(f2, path)
                     # which model a comment is attributed to may differ after re-parse (attribution aside)
@@ -491,7 +497,7 @@ def run(rep: common.Reporter, tier: str, check: set[str], plans: Optional[list] 
         transitions += r.generated
     steps = 0
     with mp.Pool(16) as pool:
-        for st, out in pool.imap_unordered(_chunk, [(sorted(check), ch) for ch in common.chunked(behs, 200)]):
+        for st, out in common.gmap(pool, rep, _chunk, [(sorted(check), ch) for ch in common.chunked(behs, 200)]):
             steps += st
             for fp, kind, msg, beh in out:
                 if kind == 'machinery':
